@@ -291,7 +291,7 @@ class Gen:
         r = self.r
         obs = [("index_valid",), ("iter",)]
         k = r.choice(["ooo_batch", "carriers", "bad_batch", "stale_handle", "torn_update", "handle_times", "linebreaks", "zones",
-                      "remove_first", "ooo_then_remove", "nested_not"])
+                      "remove_first", "ooo_then_remove", "nested_not", "reset_then_time", "getter_memo", "handle_sorted"])
         ops = []
         if k == "ooo_batch":
             # one insert_multiple whose points go backwards inside the batch, then time queries straight away
@@ -340,6 +340,39 @@ class Gen:
                 q = r.choice(shapes)()
                 ops.append(r.choice([("search", q, self.mfilter(), False), ("count", q, None), ("get", q, None)]))
             ops += [("remove", r.choice(shapes)(), self.mfilter())] + obs + [("count", ("noop", "tags"), None)]
+        elif k == "reset_then_time":
+            # the database is emptied (three ways), refilled in time order, then asked by time
+            pts = self.points_batch(r.choice([2, 3, 4]), in_order=True)
+            name = pts[0]["meas"]
+            for p in pts:
+                p["meas"] = name
+            ops += [("insert", pts, None, "multiple")] + obs
+            ops += [r.choice([("remove_all",), ("remove", ("noop", "tags"), None), ("drop", name), ("handle", name, ("remove_all",))])] + obs
+            t = max(p["time"] for p in pts) + 3600 * SEC
+            new = [self.point(t + i * SEC) for i in range(r.choice([2, 3]))]
+            ops += [("insert", [p], None) for p in new] + obs
+            for c in ["<", "<=", ">", ">=", "==", "!="]:
+                ops.append(("count", ("S", "time", [], ("cmp", c, ("t", new[0]["time"]))), None))
+            ops += [("search", ("S", "time", [], ("cmp", ">", ("t", new[0]["time"]))), None, False), ("get_timestamps", None)]
+        elif k == "getter_memo":
+            # per-measurement getters before and after an index-answered partial removal
+            pts = self.points_batch(r.choice([5, 6, 8]), in_order=True)
+            for i, p in enumerate(pts):
+                p["meas"] = ["m1", "m2"][i % 2]
+                p["tags"]["own"] = p["meas"] + str(i)
+                p["fields"]["pos"] = i
+            gets = lambda name: [("get_tag_keys", name), ("get_tag_values", [], name), ("get_field_keys", name), ("get_field_values", "pos", name),
+                                 ("get_timestamps", name), ("handle", name, ("get_field_values", "pos")), ("handle", name, ("len",))]
+            ops += [("insert", pts, None, "multiple")] + obs + gets("m1") + gets("m2")
+            ops += [("remove", ("S", "fields", [("k", "pos")], ("cmp", r.choice(["<", "=="]), ("n", r.choice([1, 2, 3])))), None)] + obs
+            ops += gets("m1") + gets("m2")
+        elif k == "handle_sorted":
+            # storage order differs from time order, the index is rebuilt by a read, then sorted reads through a handle
+            pts = self.points_batch(r.choice([4, 5, 6]), in_order=True)
+            r.shuffle(pts)
+            ops += [("insert", [p], None) for p in pts] + obs + [("count", ("noop", "tags"), None), ("index_valid",)]
+            for name in MEAS:
+                ops += [("handle", name, ("all", True)), ("handle", name, ("search", ("noop", "tags"), True)), ("all", True)]
         elif k == "carriers":
             # remove (through the index) every point that carries some tag / field key, while other points stay
             pts = self.points_batch(r.choice([5, 7, 9]), in_order=True)
